@@ -377,16 +377,21 @@ class BufferedIOBaseSource(AudioSource):
 
     async def readframes(self, nframes: int) -> bytes:
         """Read number of frames and advance in stream."""
-        # If buffer is empty but the buffering task is still running, that means we are
-        # buffering and need to wait for more data to be added to buffer.
-        buffer_task_running = self._buffer_task and self._buffer_task.done()
-        if not self._audio_buffer and not buffer_task_running:
+        total_bytes = nframes * self._sample_size * self._channels
+
+        # If the buffer holds less than what was asked for but the buffering task is
+        # still running, that means we are buffering and need to wait for more data to
+        # be added to buffer. Returning what happens to be there would put a short
+        # (zero padded) packet in the middle of the stream.
+        while (
+            len(self._audio_buffer) < total_bytes
+            and self._buffer_task is not None
+            and not self._buffer_task.done()
+        ):
             _LOGGER.debug("Audio source is buffering")
             self._buffer_needs_refilling.set()
             self._data_was_added_to_buffer.clear()
             await self._data_was_added_to_buffer.wait()
-
-        total_bytes = nframes * self._sample_size * self._channels
 
         # Return data corresponding to requested frame, or what is left
         available_data = min(total_bytes, len(self._audio_buffer))
